@@ -5,6 +5,16 @@ VERIF = os.path.dirname(os.path.dirname(os.path.abspath(__file__)))
 ALL = [f"C{i:02d}" for i in range(1, 21)]
 
 CHECKS = {
+ "C03": dict(
+   category="model_checking", design_ref="DESIGN.md §4 C03, §8",
+   text="Trace validation against the contract CodeRef.tla: random and limit-probing programs (label creation, forward/backward references of every pc-relative kind of both back ends - jmp/jcc/call short/long, jecxz/loop, [rip+label+disp] with trailing immediates, b/bl, b.cond/cbz/ldr-literal, tbz, adr, adrp - embedded label addresses and label deltas of size 1/2/4/8, binds incl. double binds, aligns, data, up to 5 sections, section switches, labels left unbound, distances on both sides of every range limit incl. +-2 GiB / +-128 MiB via virtual section sizes) are executed on the real x86-32/x86-64/AArch64 assemblers; after flatten + cross-section resolution + relocation the raw bytes of every reference site are read BY THE SPEC (architecture's reading of rel8/rel32/disp32/imm26/imm19/imm14/ADR/ADRP written from the manuals) and must equal target - origin + addend exactly; every site that is not exact must be counted as unresolved and nothing else may be (NeverTruncated + ZeroIffNone); every emitting call appends exactly the logged bytes at the cursor; refused references append nothing.",
+   note="Trusted: TLC, CodeRef.tla/Wide20.tla, the harness (logs offsets, lengths, raw bytes - decodes nothing). No impl-shaped fixup-chain model yet (design-level refinement is future work); ADRP acceptance is narrower in asmjit than in the architecture and tolerated.",
+   technique="TLA+ contract spec with the architecture's field decoders + trace validation of recorded assembler executions (TLC)"),
+ "C04": dict(
+   category="model_checking", design_ref="DESIGN.md §4 C04, §8",
+   text="Same machinery as C03 with the absolute-reference kinds: embed_label (size 4/8/register), x86-32 [label+disp] absolute operands with trailing immediates, jmp/call to absolute immediates (rel32, or FF /4,/2 through the 64-bit address table), x86-64 [abs] memory operands (default/abs/rel addressing), AArch64 b/bl to absolute targets; bases low/high/straddling 2^31, 2^32, 2^46, targets near and > 2 GiB away in both directions, base known at init vs assigned by relocate_to_base, address table last or followed by a later section, and installation through JitRuntime::add (base = what mmap returns). The spec EVALUATES each site in the relocated image (where does the instruction transfer to / what does it address; table slot bytes must be inside the image and hold the target) and requires base + section offset + label offset (+addend) or the requested absolute target; unreachable targets must be reported by relocate_to_base/emit; installed bytes must equal the relocated section buffers.",
+   note="Trusted: TLC, CodeRef.tla, harness (raw bytes + address-table bytes + memcmp of installed memory reported as a boolean). Expression relocations other than label deltas are not generated.",
+   technique="TLA+ contract spec evaluating relocated reference sites + trace validation of recorded executions (TLC)"),
  "C09": dict(
    category="model_checking", design_ref="DESIGN.md §4 C09, §8",
    text="TLC checks exhaustively (tiny blocks, all histories of alloc/release/shrink/reset up to depth 5 quick / 7 thorough, padding and immediate-release variants) that the transcribed pool algorithm JitAllocImpl (bit vectors, search window, largest-unused cache, empty/dirty/incremental flags, cursor, block doubling) refines the contract JitAlloc.tla and keeps its structural invariants. The real allocator is bound to the same contract by trace validation: TLC-simulated histories scaled to real block sizes and long seeded random histories over all option sets x granularities 64/128/256 x block sizes are executed (ASan/UBSan build); every recorded call must be a contract step: spans non-null, granule aligned, >= request, disjoint in rx and rw view, contents intact at every step, rw/rx aliasing, query exact, foreign pointers refused, statistics exact, fill pattern on freed memory, released memory reusable without a new block, retention policy after release-all/reset, is_initialized.",
@@ -15,6 +25,16 @@ CHECKS = {
    text="TLC explores all interleavings of the allocator's lock protocol with a non-atomic (scan/commit) critical section for 2 (quick) / 3 (thorough) threads: mutual exclusion, no overlap, exact counters, linearizable statistics, every call returns under weak fairness; the same model without the lock must violate NoOverlap (negative control). Real executions with 2/4/8/16 threads on one JitRuntime/JitAllocator are recorded with hook H3 (lock events emitted under the lock with a lock-ordered sequence number) and validated by TLC: lock protocol per thread (every successful alloc/release/shrink/query/statistics/add/release contains a critical section, only inside its own call, dense sequence numbers) and linearizability - the operations applied in lock order must be a behaviour of the sequential contract JitAlloc.tla with exactly the addresses/sizes/contents/statistics the threads observed. Independent generation: 8 threads assemble/compile x86-64/AArch64/Compiler programs concurrently; each output must equal the same program generated alone. The traced binary is also run under TSan as an environment.",
    note="Trusted: TLC, JitAlloc.tla, the harness' merge of thread-ordered and lock-ordered events, hook H3. Memory-level races outside the hooks are visible only via the TSan environment (abort => truncated trace => rejection).",
    technique="TLA+ interleaving model (TLC, safety + liveness + negative control) + trace validation of multi-threaded executions (lock-ordered linearization)"),
+ "C17": dict(
+   category="model_checking", design_ref="DESIGN.md §4 C17, §8",
+   text="Pointwise conformance: OffsetCodec.tla gives, for all 12 OffsetTypes, Decode (the architecture's reading), Representable and FieldBits, with spec-level theorems (RoundTrip, FieldOnly, Sound, Tight) model-checked on 279 format states; A64Imm.tla gives DecodeBitMasks, VFPExpandImm, add/sub imm12, MovWide evaluation and the bitfield alias equations; TLC enumerates all 7680/3648 valid logical encodings (5334/1302 values), all fp8 values and 16-bit lane constants. The real CodeWriterUtils::write_offset is observed on 30 formats (exhaustive for fields <= 16 bits incl. a band outside each limit, bands + stratified samples for wider ones; thorough: exhaustive decision sweep to 28 bits) and the real a64::Assembler / armutils helpers are fed every enumerated value and all Hamming-1 neighbours; TLC judges every observation: ok <=> Representable, Decode(after) = offset, other bits untouched, refused exactly when the architecture has no encoding.",
+   note="Trusted: TLC, the specs (A64 part validated against llvm-mc 14; T32/A32 diagrams from the Arm ARM without tool validation), harness/codec.cpp. Plain (unsanitized) build: Support::ror(x,0) in encode_aarch32_imm is flagged by UBSan (shift by 32) and is outside C17.",
+   technique="TLA+ codec specifications + TLC pointwise checking of observations of the real code (both directions)"),
+ "C18": dict(
+   category="model_checking", design_ref="DESIGN.md §4 C18, §8",
+   text="Per container a contract spec (spec/adt: Arena, Vector, Hash, RBTree, List, BitSet, BitVec, Pool, Str) with an abstract value and the structural invariants the property names; AdtMC lets TLC enumerate every bounded operation sequence (tree depth 6 over 5 keys, list/vector depth 4, bit set depth 3) and exports them as scripts; harness/adt.cpp executes scripts, arena-reset/printf scenarios and seeded random histories on the REAL code (one arena - dynamic or static buffer, soft/hard reset mid-history, requests larger than a block - shared by 4 vectors, 2 hash tables, 2 RB trees, 2 lists, 2 bit sets, a pool and raw allocations; 3 Strings) logging the full projected structure after every operation; TLC validates every trace: contents exact, RB order/black root/no red-red/equal black height, hash reachability, list forward = reverse of backward, bit-set unused bits zero, NUL at size, blocks aligned/disjoint/owned, chain never references freed memory, reset semantics.",
+   note="Trusted: TLC, the contracts, the ~1000-line harness projection (public members; chain walk guarded by ASan poison queries). Allocation failure excluded (C15). Growth factors, bucket counts and free-list order unspecified. ASan/UBSan build is the environment.",
+   technique="TLA+ contract specs per container + TLC behaviour export replayed on the real code + trace validation with projected structures"),
  "C19": dict(
    category="model_checking", design_ref="DESIGN.md §4 C19, §8",
    text="TLC proves (exhaustively, all add-histories up to depth 5/6 over a colliding alphabet) that the transcribed algorithm ConstPoolImpl refines the contract ConstPool.tla; the real ConstPool is bound to the same contract by trace validation: every model behaviour of depth 3, TLC-simulated longer behaviours and seeded random histories are executed on the real code (ASan/UBSan build) and each recorded trace must be a behaviour of the contract (aligned, stable, deduplicated offsets; image bytes exact; gaps zero; size/alignment cover everything).",
